@@ -30,9 +30,9 @@ Print Assumptions C15_window_exact.
 (* a message that fails authentication is never accepted and leaves last_seq, the window and
    initial_state exactly as they were, in every reachable state *)
 Theorem C15_forgery_no_trace : forall W b12 s m,
-  rp_reachable W b12 s -> rp_m_auth m = Forged ->
+  rp_reachable W b12 s -> rp_m_auth m = RpForged ->
   rp_obs (snd (rp_recv rp_fixed W b12 s m)) = rp_obs s /\
-  fst (rp_recv rp_fixed W b12 s m) <> Accept.
+  fst (rp_recv rp_fixed W b12 s m) <> RpAccept.
 Proof. exact rp_forgery_no_trace. Qed.
 Print Assumptions C15_forgery_no_trace.
 
@@ -51,10 +51,10 @@ Theorem C15_fresh_accepted : forall W b12 h m,
   let acc := rp_accepted rp_fixed W b12 rp_init h in
   let s := snd (rp_run rp_fixed W b12 rp_init h) in
   rp_initial s = false ->
-  rp_m_auth m = Genuine -> rp_m_seq m < rp_seq_max ->
+  rp_m_auth m = RpGenuine -> rp_m_seq m < rp_seq_max ->
   ((forall x, In x acc -> x < rp_m_seq m) \/
    (~ In (rp_m_seq m) acc /\ forall x, In x acc -> x - rp_m_seq m < rp_weff W)) ->
-  fst (rp_recv rp_fixed W b12 s m) = Accept.
+  fst (rp_recv rp_fixed W b12 s m) = RpAccept.
 Proof. exact rp_fresh_accepted. Qed.
 Print Assumptions C15_fresh_accepted.
 
@@ -105,10 +105,10 @@ Print Assumptions C15_orig_last_seq_lowered_refuted.
 Theorem C15_orig_forgery_leaves_trace_refuted :
   exists h m g,
     let s := snd (rp_run rp_orig 32 true rp_init h) in
-    rp_m_auth m = Forged /\ rp_m_auth g = Genuine /\
-    fst (rp_recv rp_orig 32 true s g) = Accept /\
+    rp_m_auth m = RpForged /\ rp_m_auth g = RpGenuine /\
+    fst (rp_recv rp_orig 32 true s g) = RpAccept /\
     rp_obs (snd (rp_recv rp_orig 32 true s m)) <> rp_obs s /\
-    fst (rp_recv rp_orig 32 true (snd (rp_recv rp_orig 32 true s m)) g) = RejReplay.
+    fst (rp_recv rp_orig 32 true (snd (rp_recv rp_orig 32 true s m)) g) = RpRejReplay.
 Proof. exact rp_orig_forgery_leaves_trace_refuted. Qed.
 Print Assumptions C15_orig_forgery_leaves_trace_refuted.
 
@@ -122,13 +122,13 @@ Print Assumptions C15_orig_shift_by_width_refuted.
 Theorem C15_no_bitidx_refuted :
   exists h, ~ NoDup (rp_accepted rp_no_bitidx 32 false rp_init h) /\
             fst (rp_run rp_no_bitidx 32 false rp_init (h ++ [rp_g 6])) =
-              [Accept; Accept; Accept; RejReplay].
+              [RpAccept; RpAccept; RpAccept; RpRejReplay].
 Proof. exact rp_no_bitidx_refuted. Qed.
 Print Assumptions C15_no_bitidx_refuted.
 
 Theorem C15_no_shguard_refuted :
   exists h, rp_undef (snd (rp_run rp_no_shguard 32 false rp_init h)) = true /\
-            fst (rp_run rp_no_shguard 32 false rp_init h) = [Accept; Accept; Accept; RejReplay].
+            fst (rp_run rp_no_shguard 32 false rp_init h) = [RpAccept; RpAccept; RpAccept; RpRejReplay].
 Proof. exact rp_no_shguard_refuted. Qed.
 Print Assumptions C15_no_shguard_refuted.
 
@@ -154,10 +154,10 @@ Print Assumptions C15_no_arm_refuted.
 Example C15_example_history :
   fst (rp_run rp_fixed 32 false rp_init
          [rp_g 5; rp_g 7; rp_g 5; rp_g 6; rp_g 6; rp_f 9; rp_g 8; rp_g 100; rp_g 37; rp_g 36]) =
-  [Accept; Accept; RejReplay; Accept; RejReplay; RejDecrypt; Accept; Accept; RejReplay; RejReplay].
+  [RpAccept; RpAccept; RpRejReplay; RpAccept; RpRejReplay; RpRejDecrypt; RpAccept; RpAccept; RpRejReplay; RpRejReplay].
 Proof. exact rp_fixed_example. Qed.
 
 Example C15_example_sender :
-  ss_trace (ss_boot 4 6) [Protect; Protect; Protect; Crash 3; Protect; Protect; Protect] =
+  ss_trace (ss_boot 4 6) [SsProtect; SsProtect; SsProtect; SsCrash 3; SsProtect; SsProtect; SsProtect] =
   [(6, 8); (7, -1); (8, 12); (-1, -1); (12, 15); (13, -1); (14, -1)].
 Proof. vm_compute. reflexivity. Qed.
